@@ -253,6 +253,11 @@ pub fn run_case(out: &mut Out, prop: &str, case: &PairCase) -> Option<CaseResult
 
                 // ---------------- monitors ----------------
                 out.monitor_evals += 1;
+                // entries whose declared and attached assets disagree (or that come from a foreign token / the wrong entry point) are refused:
+                // an accepted one prices or pays on amounts that never arrived (or keeps a surplus the quote knew nothing of)
+                if matches!(op, POp::BadFundsSwap { .. } | POp::BadFundsProvide { .. } | POp::ForeignHookSwap { .. } | POp::TokenViaNativeSwap { .. } | POp::WithdrawDirect { .. }) {
+                    out.monitor_fail(prop, &format!("a malformed entry was accepted: {:?}", op), replay(k, "malformed entry"));
+                }
                 let (s0, s1) = (prev.supply, cur.supply);
                 if prop == "C01" {
                     for i in 0..2 {
@@ -624,6 +629,32 @@ pub fn threshold_corpus() -> Vec<PairCase> {
                 POp::WithdrawDirect { who: 4, denom: 0, a: 500 },
             ]});
         }
+    }
+    // every malformed entry once, on native and mixed pools with liquidity and a pending fee: refused, nothing changes
+    for kinds in [[false, false], [false, true], [true, false]] {
+        let ms = Some(DEC / 2);
+        let mut ops = vec![
+            POp::Provide { who: 1, d0: 5_000_000_000, d1: 4_000_000_000, tol: None, receiver: None },
+            POp::Swap { who: 2, dir: false, x: 30_000_000, belief: None, max_spread: ms, to: None }];
+        // (declared / attached mismatches exist for native offers only)
+        for dir in [false, true] { if !kinds[dir as usize] {
+            ops.push(POp::BadFundsSwap { who: 2, dir, declared: 1_000_000, sent: 1_000_001 });
+            ops.push(POp::BadFundsSwap { who: 2, dir, declared: 1_000_000, sent: 999_999 });
+            ops.push(POp::BadFundsSwap { who: 3, dir, declared: 5_000, sent: 50_000 });
+        } }
+        ops.extend(vec![
+            POp::BadFundsProvide { who: 3, d0: 70_000, d1: 56_000, variant: 0 },
+            POp::BadFundsProvide { who: 3, d0: 70_000, d1: 70_000, variant: 1 },
+            POp::BadFundsProvide { who: 3, d0: 70_000, d1: 70_000, variant: 2 },
+            POp::BadFundsProvide { who: 4, d0: 70_000, d1: 56_000, variant: 3 },
+            POp::BadFundsProvide { who: 4, d0: 70_000, d1: 56_000, variant: 4 },
+            POp::ForeignHookSwap { who: 2, x: 1_000_000 },
+            POp::TokenViaNativeSwap { who: 2, dir: false, x: 1_000_000 },
+            POp::TokenViaNativeSwap { who: 2, dir: true, x: 1_000_000 },
+            POp::Swap { who: 1, dir: true, x: 20_000_000, belief: None, max_spread: ms, to: Some(TO_COLLECTOR) },
+            POp::Withdraw { who: 1, a: 1_000_000 },
+        ]);
+        v.push(PairCase { kinds, fab: false, decs: [6, 8], fees: (DEC / 1000, 3 * DEC / 1000, DEC / 500), ops });
     }
     v
 }
